@@ -8,9 +8,13 @@ GEN     Gen_Heap exports every operation sequence of length N (quick 3, thorough
         Mutate(original), Mutate(latest), 7 read-only ops, Unpack, Scribble} with the predicted live set, abstract regions,
         changed objects, bookkeeping permissions and copy equalities  ->  harness `heap replay`: each sequence on every type
         of dns.TypeToRR (fully populated), an unknown type, a registered PrivateRR and whole messages (Copy, CopyTo into a
-        used message); after each step: real regions (address, cap) pairwise disjoint where the spec's are, deep snapshots
+        used message), and on VARIANTS of every type: #lc (lower-case owner, mixed-case RDATA names, TTL = OrigTtl: the shape in which
+        signing needs no header rewrite), #unsorted (every list reversed: SVCB parameters, options, prefixes, type bitmaps, texts),
+        #emptycap / #emptyall (slices emptied but keeping their capacity; the Unpack input then has zero-length fields followed
+        by more octets); after each step: real regions (address, cap) pairwise disjoint where the spec's are, deep snapshots
         changed exactly where the spec says, copy == source; Mutate writes EVERY reachable cell (scalar, string, slice
-        element, slice header, pointer, interface) one at a time and looks at all other objects and the buffer;
+        element, slice header, pointer, interface, and an append within the capacity of every slice -- the exact snapshot shows
+        the hidden capacity [len:cap]) one at a time and looks at all other objects and the buffer;
         Scribble inverts every octet of the buffer.
 TV      harness `heap record`: random operation sequences over random types; events carry region ids per backing store
         and content digests -> Trace_Heap (discipline at Copy/Unpack/NewBuf, post-state agreement, non-interference).
@@ -26,6 +30,13 @@ Mutants (checks/mutants/C16), all exit 1, each caught by BOTH the GEN->replay an
   apl-copy-shallow.diff          copy/aplprefix-network-ip-shared       (GEN; TV)
   edns-subnet-copy-shallow.diff  copy/edns0-subnet-address-shared       (re-introduces the defect this check found; repaired in /repo 564993f)
   edns-dau-copy-shallow.diff     copy/edns0-dau-algcode-shared          (same, EDNS0_DAU)
+Seeded changes /verif/seeded/C16-{1,2,3} (all exit 1):
+  C16-1 cloneSlice returns len-0 slices as they are   GEN: copy/<field>-shared on the #emptycap/#emptyall variants (address overlap by capacity,
+                                                      append-within-capacity visible in the other object), unpack/<field>-aliases-buffer
+                                                      (zero-length window into the input: overlap + append writes the buffer); TV: not seen
+                                                      (the trace tier identifies regions by their visible part)
+  C16-2 rawSignatureData copies only when the header changes   GEN readonly/sign-mutates:<type>, readonly/verify-mutates:<type> on #lc; TV ro events
+  C16-3 packDataSVCB sorts the caller's slice          GEN readonly/pack-mutates:svcb-value on SVCB#unsorted / HTTPS#unsorted / Msg; TV ro events
 """
 import os, json
 import vp
